@@ -116,3 +116,58 @@ fn before_handle_events_loop(&self, extra_lifecycle_sources: &AdditionalLifecycl
                     assert(iter.rest() =~= events@);
 //@ endslice
 }
+
+//@ region event_iterator_next_specs props=C14
+/// position k holds the first event that belongs to the source `reg` (by id and generation, any sub-id)
+pub(crate) open spec fn first_match(ev: Seq<&PollEvent>, reg: RegistrationToken, k: int) -> bool {
+    &&& 0 <= k < ev.len() && ev[k].token.inner.same_src(reg.tok())
+    &&& forall|j: int| 0 <= j < k ==> !(#[trigger] ev[j]).token.inner.same_src(reg.tok())
+}
+//@ endregion
+//@ slice src/loop_logic.rs / impl Iterator for EventIterator<'_> / fn next :: body props=C14 name=EventIterator::next
+//@ rw R16 * <<self>> => <<slf>>
+//@ rw R18 1 <<for next in>> => <<while let Some(next) =>>
+//@ rw R18 1 <<.by_ref()>> => <<.next()>>
+//@ sig
+/// S1 slice: the whole body of `impl Iterator for EventIterator::next`, lifted into a free function (implementing
+/// Iterator inside Verus would need vstd's prophetic iterator-model interface for the new type). R16: `&mut self` becomes
+/// the parameter `slf`; R18: `for x in it.by_ref() { B }` becomes its definitional desugaring
+/// `while let Some(x) = it.next() { B }` (Verus has no ghost iterator for `&mut I`).
+#[verifier::exec_allows_no_decreases_clause]   // vstd's `remaining` is prophetic and may not appear in a decreases clause
+fn event_iterator_next<'a>(slf: &mut EventIterator<'a>) -> (r: Option<(Readiness, Token)>)
+//@ spec
+    ensures
+        final(slf).reg() == old(slf).reg(),
+        // C14: the iterator given to before_handle_events yields exactly the events of ITS source -- every sub-token of it
+        // (id and generation compared, sub-id ignored), in order, none of another source, none skipped
+        match r {
+            Some(item) => exists|k: int| #[trigger] first_match(old(slf).rest_refs(), old(slf).reg(), k)
+                && item.0 == old(slf).rest_refs()[k].readiness && item.1 == old(slf).rest_refs()[k].token
+                && final(slf).rest_refs() == old(slf).rest_refs().skip(k + 1),
+            None => forall|j: int| 0 <= j < old(slf).rest_refs().len() ==> !(#[trigger] old(slf).rest_refs()[j]).token.inner.same_src(old(slf).reg().tok()),
+        },
+//@ entry
+    let ghost rest0 = slf.rest_refs();
+    let ghost reg0 = slf.reg();
+    let ghost mut n: int = 0;
+//@ loop 1
+        invariant
+            rest0 == old(slf).rest_refs(), reg0 == old(slf).reg(),
+            slf.reg() == reg0,
+            0 <= n <= rest0.len(),
+            slf.rest_refs() == rest0.skip(n),
+            forall|j: int| 0 <= j < n ==> !(#[trigger] rest0[j]).token.inner.same_src(reg0.tok()),
+        ensures
+            n == rest0.len(),
+//@ before <<if next .token .inner .same_source_as(>>
+            proof {
+                assert(rest0.skip(n).skip(1) =~= rest0.skip(n + 1));
+                assert(next == rest0.skip(n)[0]);
+                assert(slf.rest_refs() == rest0.skip(n + 1));
+                n = n + 1;
+            }
+//@ before <<return Some((next.readiness, next.token));>>
+                assert(first_match(rest0, reg0, n - 1));
+                assert(next.readiness == rest0[n - 1].readiness && next.token == rest0[n - 1].token);
+                assert(slf.rest_refs() == rest0.skip((n - 1) + 1));
+//@ endslice
